@@ -228,9 +228,9 @@ def one_history(ctx, index, rng: random.Random):
                     world.register(h)
                     if np.dtype(h.dtype) != before_dtype:
                         # the sums of merged bins may not fit a compact content type: then, and only then, the type is widened losslessly
-                        top_ = float(np.iinfo(before_dtype).max) if before_dtype.kind in "iu" else float(np.finfo(before_dtype).max)
-                        big_ = max(float(np.max(np.asarray(h.frequencies, dtype=np.float64), initial=0)), float(np.max(np.asarray(h.errors2, dtype=np.float64), initial=0)))
-                        if not (np.can_cast(before_dtype, np.dtype(h.dtype)) and big_ > top_):
+                        from ..monitors.structure import merge_widening_justified
+
+                        if not merge_widening_justified(before_dtype, h.dtype, h.frequencies, h.errors2):
                             rec.fail(monitor="C13.rules", op=op, symptom="merge_bins changed the dtype", diff=["dtype"], detail={"before": str(before_dtype), "after": str(h.dtype)})
                     pairs = [np.asarray(b).tolist() for b in ([h.bins] if d == 1 else h.bins)]
                 elif op == "copy":
